@@ -246,6 +246,29 @@ func runC01(w *World, rng *rand.Rand, n int) {
 			}
 			threads = append(threads, Thread{ops})
 		}
+		if rng.Intn(2) == 0 {
+			// a reader thread: several read-only transactions that begin at different moments of the writers' commits
+			w.client("rd")
+			var ops []M
+			for j := 0; j < 3+rng.Intn(3); j++ {
+				id := fmt.Sprintf("r%d", j+1)
+				ops = append(ops, M{"c": "begin", "txn": id, "client": "rd", "pess": false, "async": false, "onepc": false})
+				for x := 0; x < 1+rng.Intn(2); x++ {
+					switch rng.Intn(4) {
+					case 0:
+						ops = append(ops, M{"c": "batchget", "txn": id, "ks": []int{1, 2, 3, 4}})
+					case 1:
+						ops = append(ops, M{"c": "iter", "txn": id, "lo": 0, "hi": 0})
+					case 2:
+						ops = append(ops, M{"c": "riter", "txn": id, "lo": 0, "hi": w.nkeys + 1})
+					default:
+						ops = append(ops, M{"c": "get", "txn": id, "k": 1 + rng.Intn(w.nkeys)})
+					}
+				}
+				ops = append(ops, M{"c": "rollback", "txn": id})
+			}
+			threads = append(threads, Thread{ops})
+		}
 		w.client("zr")
 		time.Sleep(2 * time.Millisecond)
 		baseline := runtime.NumGoroutine()
